@@ -389,6 +389,10 @@ pub fn limiter_fairness_through_listener() -> Vec<(String, String, serde_json::V
         vec![k(p1, "v1-unknown"), k(p1, "v1-unknown"), k(p1, "v1-unknown"), k(p1, "v1-unknown"), k(p1, "v2-local"), x1.clone()],
         vec![k(p2, "v2-local"), k(p2, "v2-local"), k(p2, "v2-local"), k(p2, "v1-unknown"), k(p2, "v2-local"), k(p1, "v2-local"), y2.clone()],
         vec![k(p1, "v1:127.0.0.1:4444"), k(p1, "v1-unknown"), k(p1, "v2-local"), k(p1, "v1-unknown"), k(p1, "v1:127.0.0.1:4445")],
+        // IPv6 addresses that a conversion between the two families would fold onto an IPv4 address (`::a.b.c.d`, the
+        // deprecated IPv4-compatible form; `::1` / `0.0.0.1`): other addresses, other budgets
+        vec![x1.clone(), x1.clone(), x1.clone(), k(p2, "v2:[::203.0.113.10]:1111"), k(p2, "v2:[::203.0.113.10]:1111"), k(p1, "v1:[::203.0.113.10]:1111"), x2.clone()],
+        vec![k(p1, "v2:[::1]:5000"), k(p1, "v2:[::1]:5000"), k(p1, "v2:[::1]:5000"), k(p2, "v1:0.0.0.1:5000"), k(p1, "v1:0.0.0.1:5000"), k(p1, "v1:0.0.0.1:5000")],
     ];
     let mut out = vec![];
     for limit in [1usize, 2] {
